@@ -1015,11 +1015,15 @@ func ParsePortionSpecific(input string) (*big.Rat, InterpreterError) {
 	if len(percentMatch) != 0 {
 		integral := percentMatch[1]
 		fractional := percentMatch[2]
-		res, ok = new(big.Rat).SetString(integral + "." + fractional)
+		// same reading as the percentage literal: all the digits over 10^(2 + fractional digits)
+		// (big.Rat.SetString refuses decimals with more than 10^6 fractional digits)
+		digits, okDigits := new(big.Int).SetString(integral+fractional, 10)
+		ok = okDigits
 		if !ok {
 			return nil, BadPortionParsingErr{Reason: "invalid percent format", Source: input}
 		}
-		res.Mul(res, big.NewRat(1, 100))
+		scale := new(big.Int).Exp(big.NewInt(10), big.NewInt(int64(2+len(fractional))), nil)
+		res = new(big.Rat).SetFrac(digits, scale)
 	} else {
 		fractionMatch := fractionRegex.FindStringSubmatch(input)
 		if len(fractionMatch) != 0 {
